@@ -876,6 +876,11 @@ func reduceEntries(entries []Entry, fn sutils.AggregateFunctions, fnConstant flo
 	switch fn {
 	case sutils.Sum:
 		for i := range entries {
+			if i == 0 {
+				// start from the first value so that a single -0 keeps its sign (0 + -0 == +0)
+				ret = entries[i].dpVal
+				continue
+			}
 			ret += entries[i].dpVal
 		}
 	case sutils.BottomK:
@@ -944,12 +949,21 @@ func reduceRunningEntries(entries []RunningEntry, fn sutils.AggregateFunctions, 
 	case sutils.Avg:
 		count := uint64(0)
 		for i := range entries {
-			ret += entries[i].runningVal
+			if i == 0 {
+				// start from the first value so that a single -0 keeps its sign (0 + -0 == +0)
+				ret = entries[i].runningVal
+			} else {
+				ret += entries[i].runningVal
+			}
 			count += entries[i].runningCount
 		}
 		ret = ret / float64(count)
 	case sutils.Sum:
 		for i := range entries {
+			if i == 0 {
+				ret = entries[i].runningVal
+				continue
+			}
 			ret += entries[i].runningVal
 		}
 	case sutils.Min:
